@@ -129,6 +129,7 @@ EndSession ==
          f == IF panicked THEN <<Fail(r, "Panic", i)>>
               ELSE IF berr # "" THEN
                    (IF berr = "boom" /\ r.errat > 0 THEN <<>> ELSE <<Fail(r, "ConstructorError", 0)>>)
+                   \o (IF "leftover" \in DOMAIN r /\ r.leftover # <<>> THEN <<Fail(r, "SpillFilesRemoved", 0)>> ELSE <<>>)
               ELSE
                 (IF r.kind \in {"scanner_arity", "scanner_type"} THEN
                     \* a destination of the wrong arity or type is rejected with an error, nothing delivered
@@ -140,6 +141,7 @@ EndSession ==
                  ELSE <<Fail(r, "EndsWithEOF", i)>>)
                 \o (IF r.retained = delivered \/ r.kind \in {"scanner", "scanv", "scanner_arity", "scanner_type"}
                     THEN <<>> ELSE <<Fail(r, "DeliveredRowsUnaltered", i)>>)
+                \o (IF "leftover" \in DOMAIN r /\ r.leftover # <<>> THEN <<Fail(r, "SpillFilesRemoved", i)>> ELSE <<>>)
                 \o (IF r.kind = "writerfunc" /\ ended = "EOF" /\ ~(r.written = Expected(r) /\ r.endcalls = 1)
                     THEN <<Fail(r, "WriterSeesEveryRowOnceThenEnd", i)>> ELSE <<>>)
      IN bad' = bad \o f
